@@ -31,21 +31,23 @@ import (
 
 // floors are the minimum number of times each situation must have been
 // exercised (quick tier; the thorough tier multiplies the case count by
-// 20 and the floors by 10).
+// 15 and the floors by 10).
 var floors = map[string]int{
-	"replay-40-OPEN":            20,
-	"replay-40-OPEN_CONFIRM":    8,
-	"replay-40-CLOSE":           10,
-	"replay-40-LOCK_NEW":        8,
-	"replay-40-LOCK":            5,
-	"replay-40-LOCKU":           5,
-	"replay-40-OPEN_DOWNGRADE":  3,
-	"replay-after-unrelated-40": 20,
-	"misordered-40+2":           15,
-	"misordered-40-1":           15,
-	"diff-optype-40":            20,
-	"diff-stateid-40":           10,
-	"inflight-dup-40":           20,
+	"replay-40-OPEN":              20,
+	"replay-40-OPEN_CONFIRM":      8,
+	"replay-40-CLOSE":             10,
+	"replay-40-LOCK_NEW":          8,
+	"replay-40-LOCK":              5,
+	"replay-40-LOCKU":             5,
+	"replay-40-OPEN_DOWNGRADE":    3,
+	"replay-after-unrelated-40":   20,
+	"misordered-40+2":             15,
+	"misordered-40-1":             15,
+	"diff-optype-40":              20,
+	"diff-stateid-40":             10,
+	"inflight-dup-40":             20,
+	"replay-40-CLOSE_OLD_STATEID": 3,
+	"resend-unconsumed-seqid-40":  5,
 
 	"replay-41-OPEN":              10,
 	"replay-41-CLOSE":             5,
@@ -76,7 +78,7 @@ func TestCheck(t *testing.T) {
 	r.Assume("hang verdicts are decided logically: the original has returned, the duplicate's goroutine is blocked on a channel inside /repo in three successive dumps and no other goroutine is inside /repo; wall time only paces the polling")
 	r.Assume("virtual clock advances by at most a few seconds per case, far below the 2 minute lease: lease expiry during retransmission is left to C18")
 
-	n := r.Pick(400, 8000)
+	n := r.Pick(400, 6000)
 	for name, f := range floors {
 		r.Floor(name, r.Pick(f, 10*f))
 	}
